@@ -28,6 +28,7 @@ func init() {
 	reg.Register("c17.history", "C17", history)
 	reg.Register("c17.reader", "C17", reader)
 	reg.Register("c17.faults", "C17", faults)
+	reg.Register("c17.timerule", "C17", timerule)
 }
 
 // libGen is the part of the library's generators the monitors drive (drbg.DRBG).
